@@ -116,6 +116,7 @@ pub fn check(case: &Case, obs: &mut Obs) -> CheckResult {
     let mut seq: u32 = 50;
     let mut checked = 0u64;
     let mut nontrivial = false;
+    let mut client_seen = false;
 
     for (oi, op) in case.ops.iter().enumerate() {
         match op {
@@ -127,6 +128,12 @@ pub fn check(case: &Case, obs: &mut Obs) -> CheckResult {
             Op::Reg3(l) => sh.deliver_reg3(idx(*l, n)),
             Op::Ngp(l) => sh.uplink_pkt(idx(*l, n), &[0x92, 0x11]),
             Op::Client(k) => {
+                if *k > 0 {
+                    client_seen = true;
+                    if !sh.st.reg.has_connected {
+                        obs.class("client-heard-before-registration");
+                    }
+                }
                 for _ in 0..*k {
                     seq += 1;
                     let mut p = vec![0u8; 32];
@@ -202,7 +209,8 @@ pub fn check(case: &Case, obs: &mut Obs) -> CheckResult {
                 let ty = rc::packet_type(&bytes);
                 let internal = ty.is_some_and(|t| INTERNAL.contains(&t));
                 let registration = ty.is_some_and(|t| REGISTRATION.contains(&t));
-                let client_known = sh.st.last_client_addr.is_some();
+                // independent of the sender's own record: the client is known once it has sent a datagram
+                let client_known = client_seen;
                 let _ = sh.drain_client();
                 let proof_before: Vec<u64> = sh.st.conns.iter().map(|c| c.last_ack_or_rtt_sample_ms).collect();
                 let waiting_before = sh.st.conns[li].rtt.waiting_for_keepalive_response;
@@ -389,7 +397,15 @@ pub fn check_backlog(case: &Backlog, obs: &mut Obs) -> CheckResult {
 #[derive(Debug, Clone, Hash, Serialize, Deserialize)]
 pub enum RStep {
     /// `n` datagrams to link `link` in one go (every `internal_every`+3rd one SRTLA-internal), payload length `len`
-    Burst { link: u16, n: u16, internal_every: u8, len: u16 },
+    Burst {
+        link: u16,
+        n: u16,
+        internal_every: u8,
+        len: u16,
+        /// > 0: a zero-length datagram is sent before every (`empties`+2)-th datagram of the burst
+        #[serde(default)]
+        empties: u8,
+    },
     /// the link falls silent, times out and is re-opened by the real housekeeping (new socket, reader restarted)
     Reconnect { link: u16 },
 }
@@ -403,7 +419,7 @@ pub struct ReaderCase {
 fn reader_strategy() -> impl Strategy<Value = ReaderCase> {
     let step = prop_oneof![
         6 => (any::<u16>(), prop_oneof![2 => 1u16..32, 3 => proptest::sample::select(vec![31u16, 32, 33, 34, 63, 64, 65, 66, 96, 97, 128, 129]), 2 => 32u16..260], 0u8..5, prop_oneof![Just(8u16), Just(40), 2u16..1400])
-            .prop_map(|(link, n, internal_every, len)| RStep::Burst { link, n, internal_every, len }),
+            .prop_flat_map(|(link, n, internal_every, len)| prop_oneof![3 => Just(0u8), 2 => 1u8..6].prop_map(move |empties| RStep::Burst { link, n, internal_every, len, empties })),
         1 => any::<u16>().prop_map(|link| RStep::Reconnect { link }),
     ];
     (1u8..=3, vec(step, 1..5)).prop_map(|(n_links, steps)| ReaderCase { n_links, steps })
@@ -452,7 +468,7 @@ pub fn check_readers(case: &ReaderCase, obs: &mut Obs) -> CheckResult {
     };
     for (si, st) in case.steps.iter().enumerate() {
         match st {
-            RStep::Burst { link, n: cnt, internal_every, len } => {
+            RStep::Burst { link, n: cnt, internal_every, len, empties } => {
                 let li = crate::rt::idx(*link, n);
                 let mut expected: Vec<Vec<u8>> = Vec::new();
                 for k in 0..*cnt {
@@ -463,6 +479,11 @@ pub fn check_readers(case: &ReaderCase, obs: &mut Obs) -> CheckResult {
                     d.resize(d.len().max(*len as usize), (tag as u8).wrapping_mul(13));
                     if !internal {
                         expected.push(d.clone());
+                    }
+                    if *empties > 0 && k % (*empties as u16 + 2) == 0 {
+                        // a zero-length UDP datagram: nothing to relay, but it must not cost its neighbours anything
+                        let _ = sh.rx_send_link(li, &[]);
+                        obs.class("zero-length-datagram-in-burst");
                     }
                     vensure!(sh.rx_send_link(li, &d), "harness", "step {si}: cannot send to link {li}");
                 }
